@@ -940,6 +940,11 @@ def run(prog, rep, tier):
              'are coupled updates')
     if check_perm_flag(prog, rep) < 1:
         raise AnalysisError('SITE-perm-flag: update of Site.perm not found')
+    from ..flow import check_site_index_offset
+    rep.rule('SITE-index-offset', 'the Jordan-Wigner decision of a shifted term asks the shifted site '
+             '(shared with C09)')
+    if check_site_index_offset(prog, rep, ['tenpy/networks/mps.py']) < 2:
+        raise AnalysisError('SITE-index-offset: site lookups of _term_to_ops_list not found')
     return rep.finish(
         level='other',
         explanation='Operator-registry coupling, Jordan-Wigner routing, parameter-family '
